@@ -235,14 +235,19 @@ def depend(rep: 'Report', world, module_name: str, rule_prefixes: tuple, as_rule
     original rule id).  Known findings of the other property stay known only there; here a failing
     dependency is a violation of this property too, unless listed for this property."""
     import importlib
-    mod = importlib.import_module(f'tsa.{module_name}')
-    sub = Report(rep.prop, tier=rep.tier, seed=rep.seed, quiet=True)
-    try:
-        mod.run(world, sub)
-    except AnalysisError as e:
-        raise AnalysisError(f'dependency {module_name}: {e}')
+    cache = world.__dict__.setdefault('_dep_cache', {})
+    if module_name not in cache:
+        mod = importlib.import_module(f'tsa.{module_name}')
+        sub = Report(rep.prop, tier=rep.tier, seed=rep.seed, quiet=True)
+        try:
+            mod.run(world, sub)
+            cache[module_name] = sub.instances
+        except AnalysisError as e:
+            cache[module_name] = AnalysisError(f'dependency {module_name}: {e}')
+    if isinstance(cache[module_name], AnalysisError):
+        raise cache[module_name]
     rep.rule(as_rule, text, floor=floor)
-    for inst in sub.instances:
-        if inst.rule.startswith(rule_prefixes):
+    for inst in cache[module_name]:
+        if inst.rule in rule_prefixes:
             rep.check(as_rule, f'{inst.rule}|{inst.construct}', inst.ok, line=inst.line, file=inst.file,
                       why=inst.why, facts=inst.facts, trivial=inst.trivial)
